@@ -6,12 +6,16 @@ The model (Model/Monitor.lean) is generic in the scalar; here it is instantiated
 (cost scaling by `k` is a statement about exact arithmetic: in binary64 `(k*y)/k = y` holds only up to
 rounding, finding F13).  `Mon.calls m cs` = the calls `cs` applied in order to the monitor `m`.
 
-Listed in DESIGN.md but NOT stated as a theorem: `args_unchanged` ("+, extend, prepend never alter the
-monitor passed to them").  The model is purely functional (operations return new values), so the statement
-would be vacuous; that clause is checked on the implementation by the harness monitor (deep snapshot of
-every argument before/after every operation).
+"+, extend, prepend, slicing never alter the monitor passed to them" is a statement about aliasing; it is proved
+in Props/C20Heap.lean about the heap model Model/MonitorHeap.lean (monitor objects = pointers to list cells),
+which refines this functional model (`Heap.view`).  Tuple indices, CustomMonitor, `all=False`, the verbose
+intervals and the measure views are in Props/C20Views.lean; non-rectangular trajectories, id tuples and
+iteration numbers with gaps in Props/C20Files.lean.
 -/
 import MysticVerif.Proofs.Monitor
+import MysticVerif.Props.C20Views
+import MysticVerif.Props.C20Heap
+import MysticVerif.Props.C20Files
 import Mathlib.Tactic.FieldSimp
 import Mathlib.Tactic.Ring
 import Mathlib.Tactic.NormNum
@@ -420,6 +424,44 @@ theorem support_cost_spec (k : Option K) (hk : k ≠ some 0) (iv : Option Nat) (
   apply List.map_congr_left
   intro c _
   exact y_transparent k hk c.y
+
+/-! ## accessor views -/
+
+/-- **the accessors are projections of the record list.** After the calls `cs` on a new monitor (any `k ≠ 0`),
+`get_x` / `get_y` / `get_id` (and the properties `x`, `y`, `id`, `ix`, `iy`) are the lists of recorded parameters,
+costs and ids, and `m[i]` is the pair of their `i`-th entries; `get_ax` / `get_ay` return the same lists whenever
+numpy can build an array from them. -/
+theorem views_spec (k : Option K) (hk : k ≠ some 0) (iv : Option Nat) (cs : List (Call K)) :
+    let m := Mon.calls ({ k := k, interval := iv } : Mon K) cs
+    m.getX = cs.map (·.x) ∧ m.getY = cs.map (·.y) ∧ m.getId = cs.map (·.id) ∧
+    (∀ i : Nat, m.getItem (i : Int) = (match m.getX[i]?, m.getY[i]? with
+        | some a, some b => some (a, b)
+        | _, _ => none)) ∧
+    (∀ l, m.getAx = .ok l → l = m.getX) ∧ (∀ l, m.getAy = .ok l → l = m.getY) := by
+  intro m
+  have hx : m.getX = cs.map (·.x) := by simp [m, Mon.getX, calls_x]
+  have hy : m.getY = cs.map (·.y) := by
+    simp only [m]; rw [calls_getY _ hk]; simp [Mon.getY]
+  refine ⟨hx, hy, by simp [m, Mon.getId, calls_id], ?_, ?_, ?_⟩
+  · intro i
+    unfold Mon.getItem pyIdx
+    have h0 : (0 : Int) ≤ (i : Int) := by omega
+    simp only [h0, if_true, Int.toNat_natCast, Mon.getX, Mon.len]
+    by_cases hi : i < m.x.length
+    · simp only [hi, if_true, List.getElem?_eq_getElem hi]
+      cases m.getY[i]? <;> rfl
+    · have : m.x[i]? = none := by simp; omega
+      simp [hi, this]
+  · intro l h
+    unfold Mon.getAx at h
+    split at h
+    · simp only [Except.ok.injEq] at h; exact h.symm
+    · simp at h
+  · intro l h
+    unfold Mon.getAy at h
+    split at h
+    · simp only [Except.ok.injEq] at h; exact h.symm
+    · simp at h
 
 /-! ## non-vacuity: the hypotheses are met by concrete, non-trivial instances -/
 
